@@ -16,13 +16,16 @@
 (*   clone   {o2, o}                   meta    {o, got}                    *)
 (*   uuid    {o, got}                  mapper  {h, o, params}              *)
 (*   write   {f, o, bytes}             writefail {o, k, ok}                *)
-(*   parse   {h, f}                    q       {h, q, got}                 *)
+(*   crash   {f, o, k, delivered, ok}  truncate {f2, f, k}                 *)
+(*   overwrite {f2, f, at, bytes}      parse   {h, f, verdict}             *)
+(*   recbegin {r, o}                   recnext {r, got}                    *)
+(*   q       {h, q, got}                                                   *)
 (*   sig     {h, sig, got}             typed   {h, levels, got}            *)
 (*   text    {h, text, got}            (text = a printed canonical trace)  *)
 (*   begin   {i, h, frame}             next    {i, got}                    *)
 (***************************************************************************)
 EXTENDS Integers, Sequences, FiniteSets, TLC, TLCExt, Json, IOUtils,
-        MappingSyntax, CacheContent, FrameIter, Signature, TraceRemap
+        RecordIter, CacheContent, FrameIter, Signature, TraceRemap
 
 Events == ndJsonDeserialize(IOEnv.TRACE)
 N == Len(Events)
@@ -65,16 +68,26 @@ DTextOf(idx, text) == RemapText(idx, text)
 DBeginOf(idx, frame, p) == Begin(idx, frame, p)
 DStepOf(it) == IterNext(it)
 DWrittenOk(src, w) == WellFormed(w) /\ SameIndex(Content(w), DIndexOf(src))
+\* the recorded verdict of parse is the one CacheFormat!ParseOutcome prescribes for these bytes (the error KIND;
+\* a buffer too short for a header only has to be rejected)
+DVerdictOk(bytes, v) ==
+  LET o == ParseOutcome(bytes) IN
+  IF o.ok THEN v.ok
+  ELSE ~v.ok /\ (o.err # "InvalidHeader" => v.err = o.err)
+\* one next() call of the record iterator standing at pos (RecordIter.tla)
+DRecStepOf(bytes, pos) ==
+  IF HasNext(bytes, pos) THEN LET r == NextItem(bytes, pos) IN [yield |-> <<r.item>>, pos |-> r.next]
+  ELSE [yield |-> <<>>, pos |-> pos]
 
-VARIABLES l, objs, handles, files, iters
+VARIABLES l, objs, handles, files, iters, riters
 
 S == INSTANCE System WITH
        SectionOf <- DSectionOf, RangeOk <- DRangeOk, IndexOf <- DIndexOf, InDomainOf <- DInDomainOf,
        MetaOf <- DMetaOf, UuidOf <- DUuidOf, AnswerOf <- DAnswerOf, SigOf <- DSigOf,
        SigConstrained <- DSigConstrained, TypedOf <- DTypedOf, TextOf <- DTextOf, BeginOf <- DBeginOf, StepOf <- DStepOf,
-       WrittenOk <- DWrittenOk
+       WrittenOk <- DWrittenOk, VerdictOk <- DVerdictOk, RecStepOf <- DRecStepOf
 
-tvars == <<l, objs, handles, files, iters>>
+tvars == <<l, objs, handles, files, iters, riters>>
 
 TraceInit == l = NLoads + 1 /\ S!SInit
 
@@ -91,7 +104,12 @@ TraceNext ==
   \/ Is("mapper") /\ S!NewMapper(Ev.h, Ev.o, Ev.params)
   \/ Is("write") /\ S!WriteCache(Ev.f, Ev.o, Ev.bytes)
   \/ Is("writefail") /\ S!WriteFail(Ev.o, Ev.ok)
-  \/ Is("parse") /\ S!ParseCache(Ev.h, Ev.f)
+  \/ Is("crash") /\ S!WriteCrash(Ev.f, Ev.o, Ev.delivered, Ev.ok)
+  \/ Is("truncate") /\ S!Truncate(Ev.f2, Ev.f, Ev.k)
+  \/ Is("overwrite") /\ S!Overwrite(Ev.f2, Ev.f, Ev.at, Ev.bytes)
+  \/ Is("parse") /\ S!ParseCache(Ev.h, Ev.f, Ev.verdict)
+  \/ Is("recbegin") /\ S!RecBegin(Ev.r, Ev.o)
+  \/ Is("recnext") /\ S!RecNext(Ev.r, Ev.got)
   \/ Is("q") /\ S!Query(Ev.h, Ev.q, Ev.got)
   \/ Is("sig") /\ S!Sig(Ev.h, Ev.sig, Ev.got)
   \/ Is("typed") /\ S!Typed(Ev.h, Ev.levels, Ev.got)
